@@ -7,12 +7,16 @@ From Coq.Strings Require Import Byte.
 Import ListNotations.
 From GA.Base Require Import Bytes Case Align CorrBase Tape.
 From GA.Model Require Import Random Fasta Cli.
+From GA.Model Require Phylip.
+From GA.Gen Require Import IOConst.
 From GA.Corr Require Import C07.
 
 (* kinds: 0 the same command twice (same seed, different --threads): same bytes, same exit status;
           1 build seqboot: the files are the model's replicates (and 0);
           2 reformat chain back to the starting format: same bytes as the starting file;
-          3 build distboot against build seqboot + compute distance on each replicate *)
+          3 build distboot against build seqboot + compute distance on each replicate;
+          4 reformat phylip (k_n = 0 default, 1 --one-line, 2 --no-block, 3 --output-strict) and
+          5 reformat fasta: stdout is the writer model's output (and 0) *)
 Record case := mk {
   k_kind : Z; k_what : bs;
   k_in : brows; k_tape : list Z; k_n : Z; k_frac : Q; k_shuffle : bool;
@@ -28,12 +32,17 @@ Definition model_ok (c : case) : bool :=
     | Some (reps, _) => list_eqb bytes_eqb (map unbs (k_out1 c)) (map (write 60) reps)
     | None => false
     end
+  else if Z.eqb (k_kind c) 4 then
+    let ly := Phylip.Build_layout (Z.eqb (k_n c) 3) (Z.eqb (k_n c) 1) (Z.eqb (k_n c) 2) in
+    list_eqb bytes_eqb (map unbs (k_out1 c)) [Phylip.write PHYLIP_LINE PHYLIP_BLOCK ly (unrows (k_in c))]
+  else if Z.eqb (k_kind c) 5 then
+    list_eqb bytes_eqb (map unbs (k_out1 c)) [write FASTA_LINE (unrows (k_in c))]
   else true.
 
 Definition spec_check (c : case) : option bool :=
   Some (Z.eqb (k_rc1 c) (k_rc2 c) && outs_eqb (k_out1 c) (k_out2 c) &&
         (* a failing command is not a reproducibility witness for kinds 2 and 3 *)
-        (Z.eqb (k_kind c) 0 || Z.eqb (k_rc1 c) 0)).
+        (Z.eqb (k_kind c) 0 || Z.eqb (k_kind c) 4 || Z.eqb (k_kind c) 5 || Z.eqb (k_rc1 c) 0)).
 
 Definition spec_ok (c : case) : bool := ok_of (spec_check c).
 Definition failing := failing_gen model_ok spec_ok.
